@@ -120,6 +120,17 @@ func (s *sink) violate(clause, op, facts, what string) {
 // move with this operation.
 func frozenNamed(prev *stkview.View, V string) bool { return prev.IsFrozen(V) }
 
+// frozenAtTx: frozen when the transactions of block h run = frozen at the end of the previous block, or frozen
+// by the BeginBlock of block h itself (missed votes; a guilty verdict falls at the END of a block, after its
+// transactions, and carries status 2).
+func frozenAtTx(prev, cur *stkview.View, V string, h int64) bool {
+	if prev.IsFrozen(V) {
+		return true
+	}
+	f := cur.Frozen[V]
+	return f != nil && f.Frozen && f.Status != 2 && f.FrozenHeight == h
+}
+
 // applyBlock feeds one delivered block into the model and judges it. ops/codes/gas are parallel.
 func (m *model) applyBlock(s *sink, h int64, prev, cur *stkview.View, ops []*op, res []harness.TxRes, lastOp string) {
 	maturity := prev.Opt.Maturity
@@ -153,7 +164,7 @@ func (m *model) applyBlock(s *sink, h int64, prev, cur *stkview.View, ops []*op,
 			}
 		case "unstake":
 			s.count("fired:unstake-judged")
-			if frozenNamed(prev, o.V) {
+			if frozenAtTx(prev, cur, o.V, h) {
 				s.violate("unstake-while-frozen", o.Label, "", fmt.Sprintf("height %d: unstake of %s from %s by %s accepted although the validator is frozen", h, o.Amt, o.V, o.D))
 			}
 			e := m.effOf(pair{o.V, o.D})
@@ -179,12 +190,12 @@ func (m *model) applyBlock(s *sink, h int64, prev, cur *stkview.View, ops []*op,
 			if o.Amt.Sign() <= 0 || o.Amt.Cmp(avail) > 0 {
 				s.violate("withdraw-not-matured", o.Label, "", fmt.Sprintf("height %d: withdraw of %s by %s accepted, only %s unstaked and matured", h, o.Amt, o.D, avail))
 			}
-			if frozenNamed(prev, o.V) {
+			if frozenAtTx(prev, cur, o.V, h) {
 				s.violate("withdraw-while-frozen", o.Label, "named-validator-frozen", fmt.Sprintf("height %d: withdraw of %s by %s accepted although validator %s is frozen", h, o.Amt, o.D, o.V))
 			} else {
 				var froz []string
 				for V := range m.origin[o.D] {
-					if prev.IsFrozen(V) {
+					if frozenAtTx(prev, cur, V, h) {
 						froz = append(froz, V)
 					}
 				}
